@@ -10,7 +10,7 @@ import itertools
 import conc_util
 import vlib
 
-OPS = "lsgdD"
+OPS = "lsgdDe"
 
 
 def ev_code(tok):
@@ -22,11 +22,16 @@ def gen_cases(ctx):
     th = ctx.thorough
     cases = []
     alpha2 = ["%d%s" % (t, o) for t in (0, 1) for o in OPS]
+    # (0) every accessor of the Loan (get_mut = g, get_ref = e) racing with the lender's drop:
+    #     all interleavings of the accessor's steps with the drop's steps, both accessors
+    for acc in "ge":
+        for seq in itertools.product(["0" + acc, "1D", "0d", "1s"], repeat=6 if th else 5):
+            cases.append(("ex-accessor-vs-lender-drop", "ex 2 " + " ".join(["0l", "0l"] + list(seq))))
     # (a) exhaustive prefixes over every (thread, op) pair, 2 threads, from the initial state
     for seq in itertools.product(alpha2, repeat=4 if th else 3):
         cases.append(("ex-2threads", "ex 2 " + " ".join(seq)))
     # (b) exhaustive after a prelude in which a loan is live and an access is in progress
-    for prelude in (["0l", "0l"], ["0l", "0l", "0g", "0g"], ["1l", "1l", "0D"], ["0l", "0l", "0d"]):
+    for prelude in (["0l", "0l"], ["0l", "0l", "0g", "0g"], ["1l", "1l", "0D"], ["0l", "0l", "0e", "0e"]):
         for seq in itertools.product(alpha2, repeat=4 if th else 3):
             cases.append(("ex-prelude", "ex 2 " + " ".join(prelude + list(seq))))
     # (c) 3 threads, exhaustive short prefixes
@@ -43,7 +48,7 @@ def gen_cases(ctx):
 HEADER = """From Aranya Require Import base.Tactics base.Harness base.Interleave model.BiArc.
 Open Scope N_scope.
 Definition dec_op (n : N) : bop :=
-  match n with 0 => OLend | 1 => OShared | 2 => OGet | 3 => ODropLoan | _ => ODropLender end.
+  match n with 0 => OLend | 1 => OShared | 2 => OGet | 3 => ODropLoan | 4 => ODropLender | _ => OGetRef end.
 Definition dec_ev (n : N) : bevent := BEv (N.to_nat (n / 8)) (dec_op (n mod 8)).
 Definition chk (c : nat * list N * N * N) : bool :=
   let '(n, evs, d, f) := c in
@@ -51,10 +56,114 @@ Definition chk (c : nat * list N * N * N) : bool :=
 """
 
 WHAT = {"dfree": "the shared data was freed twice", "uaf": "an operation used the data after it was freed",
-        "excl": "two accesses through loans in progress at once", "twoloans": "two live loans at once",
+        "excl": "two mutable accesses through loans in progress at once", "twoloans": "two live loans at once",
         "revoked": "a loan still got access after the lender's drop", "early": "the data was freed while a handle was still live",
         "leak": "both handles are gone but the data was never freed", "badval": "an access read a wrong (poisoned) value",
         "panic": "a client thread panicked", "hang": "a thread stopped reaching yield points"}
+
+
+MEM_HEADER = """From Aranya Require Import base.Tactics base.Harness base.Interleave model.BiArc.
+Open Scope N_scope.
+(* one channel entry = the Lender; a seal/open context = a Loan (thread 0 of the model) *)
+Definition pc0 (g : bstate) : bpc := match nth_error (th g) 0 with Some l => bpc_of l | None => BIdle end.
+Definition res0 (g : bstate) : N := match nth_error (th g) 0 with Some l => res l | None => 0 end.
+Definition finish_op (g : bstate) : bstate :=
+  Nat.iter 4 (fun g => match pc0 g with BIdle => g | _ => exec btid bstep g (BEv 0%nat OGet) end) g.
+Definition seq_op (o : N) (g : bstate) : N * bstate :=
+  let op := match o with 0 => OLend | 1 => OGet | 2 => ODropLoan | _ => ODropLender end in
+  if enabled btid bstep (BEv 0%nat op) g
+  then let g' := finish_op (exec btid bstep g (BEv 0%nat op)) in
+       (match o with
+        | 0 => if res0 g' =? 1 then 1 else 0
+        | 1 => if (res0 g' =? 3) || (res0 g' =? 8) then 1 else 0
+        | _ => 1 end, g')
+  else (match o with 0 => 0 | 1 => 2 | 2 => 2 | _ => 1 end, g).
+Fixpoint seq_run (os : list N) (g : bstate) : list N :=
+  match os with [] => [] | o :: r => let '(c, g') := seq_op o g in c :: seq_run r g' end.
+Definition chk (c : list N * list N) : bool := lN_eqb (seq_run (fst c) (binit 1)) (snd c).
+"""
+
+
+def mem_oracle(ops, codes):
+    """The property on the implementation's answers: once the entry is removed no context,
+    old or new, reaches the channel; before that exactly one context at a time works."""
+    removed, nctx = False, 0
+    for o, c in zip(ops, codes):
+        if o == "S":
+            want = 1 if (not removed and nctx == 0) else 0
+            if c == 1:
+                nctx += 1
+        elif o == "U":
+            want = 2 if nctx == 0 else (0 if removed else 1)
+        elif o == "D":
+            want = 2 if nctx == 0 else 1
+            if nctx:
+                nctx -= 1
+        else:
+            want = 1
+            removed = True
+        if c != want:
+            return "op %s answered %d, the contract requires %d" % (o, c, want)
+    return None
+
+
+def run_mem(ctx):
+    """memory::State: setup_*_ctx -> remove / remove_all / remove_if -> seal/open through the old ctx."""
+    binm = vlib.cargo_build(ctx, "hx-conc", bin="c44mem")
+    if not binm:
+        return {"built": False}
+    lines = []
+    depth = 6 if ctx.thorough else 5
+    for kind in ("seal", "open"):
+        for n in range(1, depth + 1):
+            for seq in itertools.product("SUDRAF", repeat=n):
+                lines.append(kind + " " + " ".join(seq))
+    rc, out, err = conc_util.run_parallel(binm, lines)
+    if rc != 0 or len(out) != len(lines):
+        ctx.oblige("harness:run-mem", False, "rc=%d lines=%d/%d %s" % (rc, len(out), len(lines), err[-800:]))
+        return {"built": True, "ran": False}
+    items, bad = [], []
+    for line, l in zip(lines, out):
+        ops = line.split()[1:]
+        if l.startswith("panic") or "|" not in l:
+            bad.append((line, "panic", l))
+            continue
+        left, right = l.split("|", 1)
+        codes = [int(x) for x in left.split()]
+        why = mem_oracle(ops, codes)
+        if "bystander=1" not in right:
+            why = why or "an unrelated channel stopped working"
+        if "after_remove_all=0" not in right:
+            why = why or "a context still reached its channel after remove_all"
+        if "!" in right:
+            why = why or "unexpected error " + right
+        if why:
+            bad.append((line, why, l))
+        items.append(([{"S": 0, "U": 1, "D": 2}.get(o, 3) for o in ops], codes))
+    for (line, why, l) in bad[:3]:
+        ctx.violation("memory::State: a context kept (or lost) access against the contract: " + why,
+                      {"case_line": line, "impl_answers": l, "why": why,
+                       "legend": "ops: S setup ctx, U use newest ctx (seal/open), D drop ctx, R remove, A remove every test channel, F remove_if; "
+                                 "codes: S 1 ok/0 NotFound; U 1 ok/0 NotFound/2 no ctx; D 1/2; removals 1",
+                       "replay_cmd": "echo '%s' | build/target/debug/c44mem" % line,
+                       "contradicts": "revoked_after_lender_drop / lend_exclusive (coq/props/C44.v)"})
+    ctx.oblige("oracle:memory-state-ctx-revoked-after-remove", not bad, str(bad[:3]))
+
+    def render(chunk):
+        body = vlib.coq_list(chunk, lambda c: "(%s, %s)" % (vlib.coq_list(c[0]), vlib.coq_list(c[1])))
+        return "Definition cases : list (list N * list N) := %s.\nEval vm_compute in (mismatches chk cases).\n" % body
+    outs, chunks = vlib.coq_eval_sharded(ctx, "c44mem", MEM_HEADER, items, render, shard=max(500, (len(items) + 3) // 4), timeout=900)
+    mism, base = [], 0
+    for (rc3, o), ch in zip(outs, chunks):
+        v = vlib.parse_coq_value(o) if rc3 == 0 else None
+        if v is None:
+            ctx.oblige("correspondence:mem-model-eval", False, o[-1500:])
+            return {"built": True, "ran": True}
+        mism += [base + j for j in v]
+        base += len(ch)
+    ctx.oblige("correspondence:mem-model=impl", not mism, "%d of %d op sequences differ; first: %s" % (len(mism), len(items), items[mism[0]] if mism else ""))
+    return {"op_sequences": len(lines), "ops": sum(len(i[0]) for i in items), "mismatches": len(mism),
+            "with_use_after_removal": sum(1 for ln in lines if any(a in "RAF" and "U" in ln.split()[1:][k + 1:] for k, a in enumerate(ln.split()[1:])))}
 
 
 def run(ctx):
@@ -129,6 +238,8 @@ def run(ctx):
                           dict(rp, model_trace=(mt or [])[:60], first_divergence=step), no_input=True)
     ctx.oblige("correspondence:model=impl", not mism, "%d of %d schedules differ; %s" % (len(mism), len(cases), detail))
 
+    mem_info = run_mem(ctx)
+
     fams = {}
     names = ["events", "lend_some", "lend_none", "get_some", "get_none", "drop_freed", "drop_kept", "shared_reads"]
     for (fam, _), res in zip(cases, results):
@@ -146,6 +257,7 @@ def run(ctx):
                 "executed and compared; non-trivial = a lend was refused, a get was refused after revocation, or a loan was used; "
                 "distinct by state-sequence digest",
         "distribution": fams,
+        "memory_state_sequential": mem_info,
         "samples": [{"case": cases[i][1][:120], "events": len(results[i][4]), "stats": results[i][3], "flags": results[i][2]} for i in (0, len(cases) // 2, len(cases) - 1)],
     })
     ctx.assumptions += [
